@@ -152,3 +152,47 @@ Proof. intros Hne H. pose proof (proj1 (spec_scopes f) sc ns Hne) as K. rewrite 
 Theorem C04_specification_block_restores_the_scopes f sc ns o s sc' :
   sc <> [] -> run_block model_call_spec f sc ns = TOk o s sc' -> sc' = sc.
 Proof. intros Hne H. pose proof (proj1 (proj2 (spec_scopes f)) sc ns Hne) as K. rewrite H in K. exact K. Qed.
+
+(* ---- "every variable supplied in the data map is visible everywhere unless shadowed" (Proofs/DataVisible.v):
+   for every data map EnvFromMap accepts (distinct keys, any presentation order) each entry is bound in the one
+   root scope to the conversion of its Go value; a name is read through any nesting of scopes that do not bind
+   it, the nearest binding wins otherwise, and whatever is assigned in a nested scope is gone with that scope *)
+From TW Require Import DataVisible.
+
+Theorem C04_data_map_binds_every_entry (data : list (bytes * goval)) root :
+  NoDup (map fst data) -> env_from_map data = EnvOk root ->
+  (exists fr, root = [fr]) /\
+  (forall k g, In (k, g) data -> exists v, to_object g = Some v /\ env_get root k = Some v) /\
+  (forall k, ~ In k (map fst data) -> env_get root k = None).
+Proof. exact (data_map_binds_every_entry data root). Qed.
+Print Assumptions C04_data_map_binds_every_entry.
+
+Theorem C04_visible_through_scopes_that_do_not_bind_it (frs : list (list (bytes * value))) (en : env) k :
+  Forall (fun fr => alookup k fr = None) frs -> env_get (frs ++ en) k = env_get en k.
+Proof. exact (visible_under_unshadowing_frames frs en k). Qed.
+Print Assumptions C04_visible_through_scopes_that_do_not_bind_it.
+
+Theorem C04_nearest_binding_shadows (frs : list (list (bytes * value))) fr (en : env) k v :
+  Forall (fun fr => alookup k fr = None) frs -> alookup k fr = Some v -> env_get (frs ++ fr :: en) k = Some v.
+Proof. exact (shadowed_by_nearest_frame frs fr en k v). Qed.
+Print Assumptions C04_nearest_binding_shadows.
+
+Theorem C04_data_entry_read_everywhere (data : list (bytes * goval)) root frs ops e' k g :
+  NoDup (map fst data) -> env_from_map data = EnvOk root -> In (k, g) data ->
+  Forall (fun fr => alookup k fr = None) frs ->
+  set_all ([] :: frs ++ root) ops = Some e' ->
+  exists v, to_object g = Some v /\ env_get (tl e') k = Some v.
+Proof. exact (data_entry_read_everywhere data root frs ops e' k g). Qed.
+Print Assumptions C04_data_entry_read_everywhere.
+
+(* ---- the loops: a whole @for ... @end / @each ... @end leaves the scope chain exactly as it was - header clauses,
+   passes and the @else branch write the loop's own frame only, also when the @for has no init clause *)
+Theorem C04_for_leaves_scope_unchanged cx f en ln init c post body alt v en' :
+  en <> [] -> eval_stmt cx f en (SFor ln init c post body alt) = Ok (v, en') -> en' = en.
+Proof. exact (for_leaves_scope_unchanged cx f en ln init c post body alt v en'). Qed.
+Print Assumptions C04_for_leaves_scope_unchanged.
+
+Theorem C04_each_leaves_scope_unchanged cx f en ln var arr body alt v en' :
+  en <> [] -> eval_stmt cx f en (SEach ln var arr body alt) = Ok (v, en') -> en' = en.
+Proof. exact (each_leaves_scope_unchanged cx f en ln var arr body alt v en'). Qed.
+Print Assumptions C04_each_leaves_scope_unchanged.
